@@ -57,7 +57,11 @@ Record trans := mkT { t_trig : str; t_label : option str; t_src : name; t_dst : 
    name while the model state is the member itself *)
 Record opts := mkO { o_conds : bool; o_auto : bool; o_attrs : bool; o_nested : bool; o_enum : bool }.
 
-Record machine := mkM { m_states : list stree; m_trans : list trans; m_initial : name; m_opts : opts }.
+(* m_acts: callbacks (by name) that fire a follow-up event on the model, `model.trigger(event)`, while the
+   shared counter of the current top-level call (m_budget at its start) is positive; every other callback
+   name is a no-op.  Machines are not queued, so the follow-up event is processed at once. *)
+Record machine := mkM { m_states : list stree; m_trans : list trans; m_initial : name; m_opts : opts;
+                        m_acts : list (str * str); m_budget : nat }.
 
 (* ---------------------------------------------------------------- abstract lines *)
 Inductive line :=
@@ -337,8 +341,10 @@ Inductive op :=
 Definition init_state (m : machine) : dstate :=
   let cur := enter (m_states m) (m_initial m) in mkD m cur (fresh_styles cur) None.
 
-Definition with_states (m : machine) (f : list stree) : machine := mkM f (m_trans m) (m_initial m) (m_opts m).
-Definition with_trans (m : machine) (ts : list trans) : machine := mkM (m_states m) ts (m_initial m) (m_opts m).
+Definition with_states (m : machine) (f : list stree) : machine :=
+  mkM f (m_trans m) (m_initial m) (m_opts m) (m_acts m) (m_budget m).
+Definition with_trans (m : machine) (ts : list trans) : machine :=
+  mkM (m_states m) ts (m_initial m) (m_opts m) (m_acts m) (m_budget m).
 
 Definition opt_match (f : option name) (x : option name) : bool :=
   match f with
@@ -356,23 +362,70 @@ Definition apply_op (m : machine) (o : op) : machine :=
   | RemTrans e s d => with_trans m (filter (fun t => negb (removed e s d t)) (m_trans m))
   end.
 
+(* --- one event on an unqueued machine, with state callbacks that may fire follow-up events ---
+   Transition.execute -> TransitionGraphSupport._change_state:
+     reset_styling; set_previous_transition(source, dest);
+     core _change_state: on_exit callbacks of the source state (model still in the source), set_state(dest),
+                         on_enter callbacks of the destination state;
+     set_node_style(model.state, "active")  -- the state the model has NOW.
+   A callback listed in m_acts triggers its event from inside the callback (nested processing: the
+   follow-up transition runs to completion before the outer one continues); a failing follow-up
+   (unknown / invalid event) is swallowed by the callback.  Only the state callbacks of the transition's
+   own source and destination are run: acting callbacks are in the envelope for machines whose states are
+   all simple (no nesting), of either machine class.  [fuel] bounds the nesting depth and equals the
+   shared counter at the top-level call, so it never runs out before the counter does. *)
+Fixpoint act_of (acts : list (str * str)) (c : str) : option str :=
+  match acts with
+  | [] => None
+  | (k, e) :: r => if nl_eqb c k then Some e else act_of r c
+  end.
+
+Definition cbs_of (forest : list stree) (n : name) (sel : stree -> list str) : list str :=
+  match find_node forest n with Some s => sel s | None => [] end.
+
+Definition caller := option (nat -> dstate -> str -> dstate * nat).
+
+Fixpoint run_cbs (call : caller) (acts : list (str * str)) (cs : list str) (st : dstate * nat) : dstate * nat :=
+  match cs with
+  | [] => st
+  | c :: r =>
+      run_cbs call acts r
+        (match act_of acts c, call, snd st with
+         | Some e, Some f, S b => f b (fst st) e
+         | _, _, _ => st
+         end)
+  end.
+
+Definition fire_body (call : caller) (budget : nat) (d : dstate) (e : str) : dstate * nat :=
+  match d_cur d with
+  | [leaf] =>
+      match pick (held (d_m d)) e leaf with
+      | Some t =>
+          match t_dst t with
+          | Some dst =>
+              let m := d_m d in
+              let d0 := mkD m (d_cur d) (mkS [(t_src t, 2)] [(t_src t, dst)]) (Some (t_src t)) in
+              let st1 := run_cbs call (m_acts m) (cbs_of (m_states m) (t_src t) s_exit) (d0, budget) in
+              let d1 := fst st1 in
+              let d2 := mkD (d_m d1) (enter (m_states (d_m d1)) dst) (d_sty d1) (d_last d1) in
+              let st3 := run_cbs call (m_acts m) (cbs_of (m_states m) dst s_enter) (d2, snd st1) in
+              let d3 := fst st3 in
+              (mkD (d_m d3) (d_cur d3)
+                   (mkS (set_nodes (d_cur d3) 1 (st_nodes (d_sty d3))) (st_edges (d_sty d3))) (d_last d3),
+               snd st3)
+          | None => (d, budget)
+          end
+      | None => (d, budget)
+      end
+  | _ => (d, budget)
+  end.
+
+Fixpoint fire (fuel : nat) (budget : nat) (d : dstate) (e : str) : dstate * nat :=
+  fire_body (match fuel with 0 => None | S f => Some (fire f) end) budget d e.
+
 Definition step (d : dstate) (o : op) : dstate :=
   match o with
-  | Ev e =>
-      match d_cur d with
-      | [leaf] =>
-          match pick (held (d_m d)) e leaf with
-          | Some t =>
-              match t_dst t with
-              | Some dst =>
-                  let nc := enter (m_states (d_m d)) dst in
-                  mkD (d_m d) nc (change_styles (t_src t) dst nc) (Some (t_src t))
-              | None => d
-              end
-          | None => d
-          end
-      | _ => d
-      end
+  | Ev e => fst (fire (m_budget (d_m d)) (m_budget (d_m d)) d e)
   | _ => (* the overrides of GraphMachine regenerate every model's graph (force_new) *)
       mkD (apply_op (d_m d) o) (d_cur d) (fresh_styles (d_cur d)) (d_last d)
   end.
@@ -430,6 +483,17 @@ Fixpoint check_scopes (ls : list line) (stk : list name) : option (list name) :=
   | Close :: r => match stk with [] => None | _ :: s' => check_scopes r s' end
   | _ :: r => check_scopes r stk
   end.
+
+(* no on_exit callback of any state fires a follow-up event *)
+Fixpoint inert_tree (acts : list (str * str)) (s : stree) : bool :=
+  match s with
+  | Node _ _ _ _ _ ex _ _ kids =>
+      forallb (fun c => match act_of acts c with None => true | Some _ => false end) ex
+      && forallb (inert_tree acts) kids
+  end.
+Definition exit_inert (m : machine) : bool := forallb (inert_tree (m_acts m)) (m_states m).
+Definition op_inert (acts : list (str * str)) (o : op) : bool :=
+  match o with AddState s => inert_tree acts s | _ => true end.
 
 (* labels of all transitions from s to d, in order *)
 Definition labels_for (o : opts) (ts : list trans) (s d : name) : list str :=
